@@ -106,6 +106,16 @@ def cases(tier):
             out.append(("DEEP %d %s %s" % (k, member, callee), NODE + "fn f(n: &Node)\n{\n\t%s(n%s.%s);\n}\n" % (callee, ".next" * k, member), verdict))
         out.append(("DEEP-ASG %d" % k, NODE + "fn f(n: &Node)\n{\n\tn%s.value = 5;\n}\n" % (".next" * k), "OK"))
         out.append(("DEEP-ASGBAD %d" % k, NODE + "fn f(n: &Node)\n{\n\tn%s.value = true;\n}\n" % (".next" * k), None))
+    # a scalar is neither indexed nor given members, on either side of an assignment (on the left this reached an
+    # unreachable!() of the typer - D36) or behind a pointer
+    for t in ("u8", "i32", "bool", "usize"):
+        lit = "true" if t == "bool" else "1"
+        for acc in ("[2]", "[i]", ".m", "[0][1]", ".m.n", "[0].m"):
+            out.append(("SCALAR-ASG %s %s" % (t, acc), "fn f(i: usize)\n{\n\tvar z: %s = %s;\n\tz%s = %s;\n}\n" % (t, lit, acc, lit), None))
+            out.append(("SCALAR-INFER-ASG %s %s" % (t, acc), "fn f(i: usize)\n{\n\tvar z = %s;\n\tz%s = %s;\n}\n" % ("true" if t == "bool" else "1" + t, acc, lit), None))
+            out.append(("SCALAR-READ %s %s" % (t, acc), "fn f(i: usize)\n{\n\tvar z: %s = %s;\n\tvar r = z%s;\n}\n" % (t, lit, acc), None))
+            out.append(("SCALAR-PTR-ASG %s %s" % (t, acc), "fn f(i: usize, z: &%s)\n{\n\tz%s = %s;\n}\n" % (t, acc, lit), None))
+        out.append(("SCALAR-OK %s" % t, "fn f(i: usize, z: &%s)\n{\n\tvar a: [3]%s;\n\ta[i] = %s;\n\tz = a[2];\n}\n" % (t, t, lit), "OK"))
     for a in PRIMS:
         out.append(("MEMOK %s" % a, "struct H\n{\n\tm: %s,\n}\nfn f(v: %s)\n{\n\tvar h = H { m: v };\n}\n" % (a, a), "OK"))
     return out
